@@ -17,6 +17,7 @@ pub fn def() -> PropDef {
         nontrivial,
         functional: true,
         rule: "all maps with <= 3 (quick) / <= 4 (thorough) distinct keys over the key alphabet {1, 2, 1u, 2u, 3u, true, 'a', 'b'} with non-null values, written as literals and supplied as context variables, each queried with every key of the alphabet, the int/uint twin of every numeric key and absent keys through `k in m`, `m.contains(k)`, `m[k] != null`, and for the string keys `has(m.k)` / `m.k`; all int lists up to length 4 indexed with -2..len+1 and the i64 extremes; random strings and lists for size(a+b) = size(a)+size(b), order preservation, operands intact and `x in l` iff exists; the predicate recomputes presence / elements from the written map or list; non-trivial = the container is non-empty; distinct = distinct (context, source)",
+        post: super::no_post,
         exhaustive_note: "maps up to 3 keys x all queries and lists up to length 4 x all indices are enumerated completely in the quick tier",
     }
 }
